@@ -277,6 +277,35 @@ def run(ck, facts, tier):
                      "%s:%d" % (rr["file"], rr["line"]), sample="(k.and_utc().timestamp(), v) for every node")
         except Unsupported as e:
             ck.fail(r6, "from[%s]" % var, "rule could not be established (%s)" % e, "%s:%d" % (rr["file"], rr["line"]))
+    # ---------------- R11.7 the per-kind accessors of the node map
+    r7 = ck.rule("R11.7", "the node map's accessors do the same for all three kinds: first_key() is the key of entry 0 (the zero-rate rule's origin), keys() is every key in "
+                          "stored order (what the interval search bisects), sort_keys() sorts the contained map by key", floor=9)
+    NT = "curves::nodes::NodesTimestamp::"
+
+    def plain(k):
+        """unwrap/expect erased"""
+        if isinstance(k, tuple):
+            if len(k) == 5 and k[:2] == ("sym", "m") and k[2] in ("unwrap", "expect"):
+                return plain(k[3])
+            return tuple(plain(x) for x in k)
+        return k
+    Mp = Sym("map")
+    wants = {"first_key": [("sym", "field", cel.vkey(Sym("m", "first", cel.vkey(Mp), ())), "0"), ("sym", "field", cel.vkey(Sym("m", "get_index", cel.vkey(Mp), (Poly.const(0).key(),))), "0")],
+             "keys": [cel.vkey(Sym("m", "collect", cel.vkey(Sym("m", "keys", cel.vkey(Mp), ())), ())), cel.vkey(Sym("collect", cel.vkey(Sym("m", "keys", cel.vkey(Mp), ()))))],
+             "sort_keys": [cel.vkey(Sym("m", "sort_keys", cel.vkey(Mp), ()))]}
+    for meth, accepted in wants.items():
+        rr = facts.fn(NT + meth)
+        for var in ("F64", "Dual", "Dual2"):
+            key = "%s[%s]" % (meth, var)
+            if rr is None:
+                ck.fail(r7, key, "accessor not found")
+                continue
+            try:
+                got = cel.Ev(facts).apply_fn(NT + meth, [Sym("ctor", var, Mp)], 0)
+                ck.check(r7, key, plain(cel.vkey(got)) in accepted, "%s on the %s map is not %s" % (meth, var, {"first_key": "the key of entry 0", "keys": "all keys in stored order", "sort_keys": "a key-sort of the map"}[meth]),
+                         "%s:%d" % (rr["file"], rr["line"]), detail=cel.vfmt(got)[:200], sample=cel.vfmt(got)[:100])
+            except Unsupported as e:
+                ck.fail(r7, key, "rule could not be established (%s)" % e, "%s:%d" % (rr["file"], rr["line"]))
     # supply order also reaches the variable tags of a curve built with derivatives: nodes are sorted before they are enumerated (C12 R12.2)
     from rules import c12
     if not getattr(ck, "_c11_c12_nested", False):          # C12 includes R11.4 of this module in turn
